@@ -28,7 +28,7 @@ def run(seed):
         r = subprocess.run("git -C %s apply %s/seeded/%s/patch.diff" % (wt, VERIF, seed), shell=True, capture_output=True, text=True)
         if r.returncode != 0:
             return seed, dict(applies=False, note=r.stderr[-300:])
-        env = dict(os.environ, VERIF_REPO=wt, VERIF_NO_EVIDENCE="1", VERIF_REPLAY_SUFFIX="_" + seed)
+        env = dict(os.environ, VERIF_REPO=wt, VERIF_NO_EVIDENCE="1", VERIF_REPLAY_SUFFIX="_" + seed, VERIF_WORK_SUFFIX="_" + seed)
         p = subprocess.run("/venv/bin/python harness/vp.py check %s --tier quick --no-build" % pid, shell=True, cwd=VERIF,
                            capture_output=True, text=True, env=env, timeout=1800)
         viol = [l for l in p.stdout.splitlines() if l.startswith("VIOLATION")]
@@ -41,6 +41,7 @@ def run(seed):
     finally:
         subprocess.run("git -C /repo worktree remove --force %s" % wt, shell=True)
         shutil.rmtree(wt, ignore_errors=True)
+        shutil.rmtree(os.path.join(VERIF, "coq", "work_" + seed), ignore_errors=True)
 
 
 with ThreadPoolExecutor(max_workers=4) as ex:
